@@ -150,6 +150,24 @@ m("m52", ML, "MainLoop::executeWrite (hex)", "level check only for messages of a
   "    if (!message->hasLevel(levels)) {\n      return RESULT_ERR_NOTAUTHORIZED;\n    }\n    if (!message->isWrite()) {",
   "    if (circuit != message->getCircuit() && !message->hasLevel(levels)) {\n      return RESULT_ERR_NOTAUTHORIZED;\n    }\n    if (!message->isWrite()) {")
 
+# ---------------- extra (second batch) ----------------
+m("m61", MSG, "MessageMap::find(circuit,name)", "level tested on the first message stored under the name instead of the first available one that is returned", "C16",
+  "      Message* message = getFirstAvailable(it->second);\n      if (message && message->hasLevel(levels)) {", "      Message* message = getFirstAvailable(it->second);\n      if (message && it->second.front()->hasLevel(levels)) {")
+m("m62", ML, "UserList::addFromFile", "level list of an ACL row is lower-cased on load (as the column names are)", "C16",
+  "  m_userSecrets[name] = secret;\n  m_userLevels[name] = levels;", "  m_userSecrets[name] = secret;\n  FileReader::tolower(&levels);\n  m_userLevels[name] = levels;")
+m("m63", ML, "MainLoop::executeRead (hex)", "level check only when the own source address is used (`-s QQ` given: check skipped together with the cache branch)", "C16",
+  "    if (!message->hasLevel(levels)) {\n      return RESULT_ERR_NOTAUTHORIZED;\n    }\n    if (message->isWrite()) {\n      return RESULT_ERR_INVALID_ARG;\n    }\n    if (circuit.length() > 0",
+  "    if (srcAddress == SYN && !message->hasLevel(levels)) {\n      return RESULT_ERR_NOTAUTHORIZED;\n    }\n    if (message->isWrite()) {\n      return RESULT_ERR_INVALID_ARG;\n    }\n    if (circuit.length() > 0")
+m("m64", RQ, "RequestImpl::split", "emptiness guard of the closing-quote test dropped for the opening token (a lone quote character: token[length-1] on an empty token)", "C18 C20cmd",
+  "        token.erase(0, 1);\n        if (token.length() > 0 && token[token.length()-1] == escaped) {", "        token.erase(0, 1);\n        if (token[token.length()-1] == escaped) {")
+
+m("m65", ML, "MainLoop::executeGet", "`maxage=` no longer implies `required` (dropped assignment)", "C16",
+  "          maxAge = parseInt(value.c_str(), 10, 0, 24*60*60, &ret);\n          required = true;", "          maxAge = parseInt(value.c_str(), 10, 0, 24*60*60, &ret);")
+m("m67", ML, "MainLoop::executeRead", "wrong default for the maximum cache age (5*60 -> 5*60*60 seconds)", "C16",
+  "  time_t maxAge = 5*60;\n  string circuit, params;", "  time_t maxAge = 5*60*60;\n  string circuit, params;")
+m("m74", RQ, "RequestImpl::waitResponse", "request buffer not cleared after the response was fetched (dropped reset: the next line of the connection is appended to the previous one)", "C18",
+  "  m_request.clear();\n  *result = m_result;", "  *result = m_result;")
+
 
 def main():
     rows = []
